@@ -2,8 +2,10 @@
 (***************************************************************************)
 (* Property C12: what EHLO/LHLO advertises, as a function of the server    *)
 (* configuration and the TLS state, and what the server then honours.      *)
-(* The configuration space is finite (3072 configurations x TLS active or  *)
-(* not) and is enumerated completely, as initial states.                   *)
+(* The configuration space is finite (2048 configurations x TLS active or  *)
+(* not = 4096 states: the 3072 of the property plus TLS supplied by the    *)
+(* caller's own listener without Server.TLSConfig) and is enumerated       *)
+(* completely, as initial states.                                          *)
 (***************************************************************************)
 EXTENDS Naturals, Sequences, FiniteSets, TLC, Json
 
@@ -16,7 +18,8 @@ Configs ==
    maxBytes : {0, N}, maxRcpt : {0, N}, tlsConfigured : BOOLEAN,
    insecureAuth : BOOLEAN, authBackend : BOOLEAN, lmtp : BOOLEAN]
 
-Init == cfg \in Configs /\ active \in BOOLEAN /\ (active => cfg.tlsConfigured)
+\* (TLS can be active without Server.TLSConfig: the caller's own TLS listener)
+Init == cfg \in Configs /\ active \in BOOLEAN
 Next == UNCHANGED <<cfg, active>>
 
 AuthAllowed == active \/ cfg.insecureAuth
